@@ -3,7 +3,7 @@
 From Coq Require Import List Bool Arith NArith ZArith Lia Sorting.Sorted.
 Import ListNotations.
 From C13 Require Import Model ProofsGlob ProofsKmp ProofsWild ProofsSearch ProofsTable ProofsSealed.
-From C13 Require Import ModelBlock ProofsBlock ProofsProvider ProofsWriter ProofsActive.
+From C13 Require Import ModelBlock ProofsBlock ProofsProvider ProofsWriter ProofsActive ProofsRace.
 
 (* The executable specification [glob] (what every case is judged against) is the declarative
    glob: text terms stand for themselves, every '*' for an arbitrary string. *)
@@ -340,4 +340,73 @@ Example C13_sealed_bytes_nonvacuous :
   sealed_search_bytes (lookup []) W32 16384 0 fields [g_] (QLit [TText [a]; TStar]) = Some [4; 5]%Z /\
   sealed_search_bytes (lookup []) W32 16384 0 fields [f_] (QLit [TText [a; b]]) = Some [2]%Z /\
   spec_scan (spec_match (lookup []) (QLit [TText [a]; TStar])) 4 [[a]; [a; a]; [b]] = [4; 5]%Z.
+Proof. vm_compute. repeat split. Qed.
+
+(* ================================================================ searches against changing state *)
+
+(* Active side. Append publishes a new token in TWO steps (createTIDs: tidToVal grows;
+   fillFieldTIDs: the field's TID list grows; several Appends may be between their steps at once,
+   filled in any order), getTokenProvider takes TWO snapshots in the code's order: the field's TID
+   list first, the value slice second. For EVERY interleaving (pre = the steps before the first
+   read, mid = the steps between the two reads): every TID of the list snapshot is below the length
+   of the value snapshot, GetToken(i) returns the token of the i-th TID, the provider's token
+   sequence is exactly the field's tokens published when the TID list was read, and Search over it
+   equals their scan (no index out of range in any schedule). *)
+Theorem C13_active_snapshot_consistent : forall parse : bytes -> option Z,
+  (forall s k, parse s = Some k -> (- maxkey <= k <= maxkey)%Z) ->
+  forall (hash : bytes -> nat) (pre mid : list wev) (f : bytes),
+  let st1 := crun hash c_init pre in
+  let st2 := crun hash st1 mid in
+  let tids := aget [] f (tl_fields (c_tl st1)) in
+  let vals := tl_vals (c_tl st2) in
+  let dict1 := ap_dict (c_tl st1) f in
+  (forall id, In id tids -> (0 <= id < Z.of_nat (length vals))%Z) /\
+  snap_dict tids vals = Some dict1 /\
+  (forall i, (1 <= i <= Z.of_nat (length tids))%Z -> snap_get tids vals i = Some (tok 1 dict1 i)) /\
+  (forall q, wfq q -> search parse false 1 dict1 q = Some (spec_scan (spec_match parse q) 1 dict1)).
+Proof. exact snapshot_consistent. Qed.
+Print Assumptions C13_active_snapshot_consistent.
+
+(* the two-step model is Append: createTIDs then fillFieldTIDs of the same call = tl_append *)
+Theorem C13_append_is_two_steps : forall hash arrival t items,
+  c_tl (cstep hash (cstep hash {| c_tl := t; c_pending := [] |} (WCreate arrival items)) (WFill 0))
+  = tl_append hash arrival t items.
+Proof. exact append_is_two_steps. Qed.
+Print Assumptions C13_append_is_two_steps.
+
+(* the SWAPPED read order (value slice first, TID list second) is refuted by a 2-step interleaving:
+   both publication steps of one Append between the two reads give a TID beyond the value
+   snapshot (GetToken: index out of range) *)
+Example C13_active_snapshot_swapped_refuted :
+  let hash := fun _ : bytes => 0 in
+  let mid := [WCreate [0] [([f_; 58%N; a], 1)]; WFill 0] in
+  let st1 := c_init in
+  let st2 := crun hash st1 mid in
+  let vals := tl_vals (c_tl st1) in                    (* read first *)
+  let tids := aget [] [f_] (tl_fields (c_tl st2)) in   (* read second *)
+  tids = [1%Z] /\ length vals = 1 /\ snap_dict tids vals = None /\ snap_get tids vals 1 = None.
+Proof. vm_compute. repeat split. Qed.
+
+(* Sealed side. TableLoader.load() overwrites the read cursor an earlier load left (l.i = 1), so it
+   is the same function of the index file from every loader state; through the cache: whatever is
+   evicted before whichever lookup, EVERY lookup of one loader sees the table a fresh loader's first
+   load returns - so the sealed search (a function of that table and the blocks:
+   C13_sealed_equals_scan, C13_sealed_equals_scan_bytes_partial) equals the scan for any eviction
+   pattern. The index file enters as the list of its block lengths; decoding the table blocks
+   (packer.BytesUnpacker) is not modelled - compared on every run through the real loader. *)
+Theorem C13_table_reload_idempotent : forall lens : list N,
+  (forall c1 c2, tl_load lens c1 = tl_load lens c2) /\
+  forall t, tl_load lens 0 = Some t ->
+    forall evict cursor cached, (cached = None \/ cached = Some t) ->
+      Forall (fun r => r = Some t) (tl_lookups lens cursor cached evict).
+Proof. exact table_reload_idempotent. Qed.
+Print Assumptions C13_table_reload_idempotent.
+
+(* the variant that remembers the table start but does not rewind the cursor is refuted: the second
+   load of the same loader reads the blocks behind the table's terminator *)
+Example C13_table_reload_norewind_refuted :
+  let lens := [10; 5; 0; 7; 0; 3; 0]%N in
+  tl_load lens 0 = Some (3, 5) /\
+  tl_load_norewind lens (0, 0) = Some (3, 5, (5, 3)) /\
+  tl_load_norewind lens (5, 3) = Some (5, 7, (7, 3)).
 Proof. vm_compute. repeat split. Qed.
